@@ -244,6 +244,12 @@ U_C08_Sel(zz) == {DeclP([C0 |-> Class(DefaultOpts, <<U1("k"), RefSelF("v", EF("k
 \* through one reference or through the elements of a sequence of packets
 SignAlts == <<[key |-> 0, alt |-> IntF("", 2, FALSE, "default")], [key |-> 1, alt |-> IntF("", 2, TRUE, "default")],
               [key |-> 2, alt |-> IntF("", 2, TRUE, "little")], [key |-> 3, alt |-> IntF("", 2, FALSE, "little")]>>
+\* conditions / counts over ONE field that differ only in a constant, the constants having equal hashes (-1 and -2): each
+\* keeps its own meaning, whatever is remembered about expressions compiled earlier
+U_C08_Hash(zz) == {DeclP([C0 |-> Class(DefaultOpts, <<S1("t"), OptF("o", U1("e"), Defer(EBin("eq", EF("t"), EC(0 - 1)))),
+                                                     OptF("q", U1("e"), Defer(EBin("eq", EF("t"), EC(0 - 2)))), U1("z")>>)], {0, 1, 254, 255}, 4, {0}),
+                   DeclP([C0 |-> Class(DefaultOpts, <<S1("t"), RepCountF("r", U1("e"), Defer(EBin("mul", EF("t"), EC(0 - 1))), NoCond, 0),
+                                                     RepCountF("s", U1("e"), Defer(EBin("mul", EF("t"), EC(0 - 2))), NoCond, 0), U1("z")>>)], {0, 1, 254, 255}, 4, {0})}
 U_C08_Sign(zz) == {DeclP([C0 |-> Class(DefaultOpts, <<U1("k"), RefSelF("v", EF("k"), SignAlts, fm, IntV(0)), U1("z")>>)], {0, 1, 2, 255}, 4, {0}) :
                       fm \in {"lambda", "chooses"}}
               \cup {DeclP([C0 |-> Class(DefaultOpts, <<U1("n"), RepCountF("r", RefF("e", "C1"), SzField("n"), NoCond, 0)>>),
@@ -270,7 +276,7 @@ U_C08_Emb(zz) == {DeclP([C0 |-> Class(DefaultOpts, <<U1("h")>> \o Embedded("p", 
                   DeclP([C0 |-> Class(DefaultOpts, <<U1("h"), RefF("s", "C1"), U1("t")>>),
                          C1 |-> Class(DefaultOpts, Embedded("p", "C2", <<>>, Sub1.fields) \o <<OptF("o", U1("e"), Lam(EF("x")))>>),
                          C2 |-> Sub1], {0, 1, 2}, 5, {0})}
-U_C08(zz) == U_C08_Sign(0) \cup U_C08_Count(0) \cup U_C08_Until(0) \cup U_C08_Opt(0) \cup U_C08_Nest(0) \cup U_C08_Shared(0) \cup U_C08_Desc(0) \cup U_C08_Emb(0)
+U_C08(zz) == U_C08_Hash(0) \cup U_C08_Sign(0) \cup U_C08_Count(0) \cup U_C08_Until(0) \cup U_C08_Opt(0) \cup U_C08_Nest(0) \cup U_C08_Shared(0) \cup U_C08_Desc(0) \cup U_C08_Emb(0)
              \cup U_C08_Sel(0)
 
 \* -------------------------------------------------------------------- C10
@@ -378,7 +384,15 @@ U_C03_Q(zz) == {d \in U_C03_Fixed(0) : d.prog["C0"].opts.endian = "little" \/ d.
 
 \* -------------------------------------------------------------------- C12
 \* nested declarations driven into failure at every depth
-U_C12(zz) ==
+\* a class that refers to itself, parsed 18 levels deep and cut short at the bottom; an expression that raises half-way
+\* (operands left behind) in front of a field that can fail on its own
+U_C12_Deep(zz) ==
+    {WithInputs(DeclP([C0 |-> Class(DefaultOpts, <<U1("t"), U1("v"),
+                                  OptF("o", RefSelF("e", EC(0), <<[key |-> 0, alt |-> RefF("", "C0")]>>, "lambda", IntV(0)), SzField("t"))>>)], {1}, 0, {0, 1}),
+                {RepB(1, 36), RepB(1, 36) \o <<0, 5>>, RepB(1, 36) \o <<0>>, RepB(1, 40) \o <<0, 5>>}),
+     DeclP([C0 |-> Class(DefaultOpts, <<U1("pre"), DataF("d", Defer(EBin("add", EC(1), EBin("floordiv", EC(2), EF("pre"))))),
+                                        IntF("post", 2, FALSE, "default")>>)], {0, 1, 2}, 6, {0})}
+U_C12(zz) == U_C12_Deep(0) \cup
     {DeclP([C0 |-> Class(DefaultOpts, <<U1("h"), RefF("s", "C1"), IntF("t", 2, FALSE, "default")>>),
             C1 |-> Class(DefaultOpts, <<U1("n"), RepCountF("r", RefF("e", "C2"), SzField("n"), NoCond, 0),
                                         OptF("o", IntF("e", 3, FALSE, "default"), SzField("n"))>>),
@@ -582,6 +596,7 @@ PickU(n) ==
       [] n = "U_C01_Root" -> U_C01_Root(0)
       [] n = "U_C01_Reent" -> U_C01_Reent(0)
       [] n = "U_C08_Sign" -> U_C08_Sign(0)
+      [] n = "U_C08_Hash" -> U_C08_Hash(0)
       [] n = "U_Wide" -> U_Wide(0)
       [] n = "U_C08" -> U_C08(0)
       [] n = "U_C10_Flat" -> U_C10_Flat(0)
